@@ -158,6 +158,7 @@ func (P *Program) verifyFunction(key string, opts VerifyOpts) (res *FnResult) {
 			post.vars[k] = v
 		}
 		bindResults(post.vars, fn.Signature, re.res)
+		c.applyGhostSets(ct, post)
 		posts = append(posts, post)
 		reaches = append(reaches, re.cond)
 		c.applyUses(ct, post, re.cond)
@@ -187,9 +188,44 @@ func (P *Program) verifyFunction(key string, opts VerifyOpts) (res *FnResult) {
 		c.obligeParts("postcondition", "post:"+cl.name(), cl.Tags, reaches, goals, fn.Pos(), cl.Text, poss...)
 	}
 	c.noHide = true
+	if len(ct.GhostSets) > 0 {
+		// the merged exit state (frame obligations) sees the same ghost assignments
+		oe := &Env{c: c, pkg: fr.pkg, vars: map[string]Val{}, st: out, old: c.entry, oldTop: top0, at: key}
+		for k, v := range fr.params {
+			oe.vars[k] = v
+		}
+		bindResults(oe.vars, fn.Signature, rv)
+		c.applyGhostSets(ct, oe)
+	}
 	c.frameObligations("frame", c.entry, out, locs, oreach, top0, fn.Pos())
 	c.smoke("smoke:exit", oreach, fn.Pos())
 	return
+}
+
+// applyGhostSets performs the contract's `ghostset G(key) = value` clauses on the
+// state of one exit: value and key are evaluated in that state, then the ghost
+// state function is updated at that key (a ghost statement at the return).
+func (c *Ctx) applyGhostSets(ct *Contract, env *Env) {
+	for _, cl := range ct.GhostSets {
+		call, ok := cl.Exprs[0].(*ast.CallExpr)
+		if !ok || len(call.Args) != 1 {
+			panic("ghostset: left-hand side must be G(key)")
+		}
+		id, ok := call.Fun.(*ast.Ident)
+		var g *GState
+		if ok {
+			g = c.P.CS.GStates[id.Name]
+		}
+		if g == nil {
+			panic("ghostset: unknown ghost state function in " + cl.Text)
+		}
+		env.at = fmt.Sprintf("%s:%d", cl.File, cl.Line)
+		k := env.eval(call.Args[0]).L[0]
+		v := env.eval(cl.Exprs[1]).L[0]
+		key, srt, _ := c.gstateKey(g)
+		h := c.heapGet(env.st, key, srt)
+		c.heapSet(env.st, key, srt, app("store", h, "1", app("store", sel(h, "1"), k, v)))
+	}
 }
 
 // smoke records a reachability check: `reach` must be satisfiable together
